@@ -48,6 +48,7 @@ A1ok(op, c, s) ==
       [] op \in PairOps -> IsSeq(s, 0, MaxPair)
       [] op \in NeedleOps \cup {"search_n"} -> IsSeq(s, 0, MaxA2)
       [] op \in {"min", "max", "minmax", "iter_swap"} -> IsSeq(s, 0, 2) /\ Len(s) = 2
+      [] op \in AdaptorOps -> IsSeq(s, 0, MaxLen) /\ \A i \in 1..Len(s) : Key(s[i]) = i % 3   \* one sequence per length
       [] op = "clamp" -> IsSeq(s, 0, 3) /\ Len(s) = 3 /\ ~Lt(c, s[3], s[2])      \* Preconditions: !(hi < lo)
       [] OTHER -> IsSeq(s, 0, MaxLen)
 A1max(op) == IF op \in PairOps THEN MaxPair ELSE IF op \in NeedleOps \cup {"search_n"} THEN MaxA2 ELSE MaxLen
@@ -71,6 +72,9 @@ MSet(op, s, c) ==
       [] op \in {"shift_left", "shift_right"} -> 0..(n + 1)          \* Preconditions: n >= 0
       [] op = "search_n" -> (-1)..(n + 1)
       [] op \in {"replace", "replace_if"} -> Keys                    \* key of the new value
+      [] op = "rit_cmp" -> {i * 8 + j : i \in 0..n, j \in 0..n}                 \* every pair of positions
+      [] op \in {"rit_nav", "iter_nav", "iter_nav_ra"} -> {i * 16 + k + 8 : i \in 0..n, k \in (0 - n)..n}
+      [] op = "iter_nav_fwd" -> {i * 16 + k + 8 : i \in 0..n, k \in 0..n}
       [] op = "inplace_merge" -> {k \in 0..n : SortedD(Take(s, k), c) /\ SortedD(Drop(s, k), c)}
       [] OTHER -> {0}
 VSet(op, c) ==
